@@ -127,6 +127,13 @@ func (this *FPAQEncoder) Write(block []byte) (int, error) {
 		return 0, fmt.Errorf("FPAQ codec: Invalid block size parameter (max is 1<<30): got %v", count)
 	}
 
+	if count == 0 {
+		// Nothing is encoded for an empty block (the decoder reads nothing):
+		// there are no final bits to flush in Dispose()
+		this.disposed = true
+		return 0, nil
+	}
+
 	startChunk := 0
 	end := count
 
